@@ -26,9 +26,25 @@ struct C10Script {
     hold_ns: u64,
     /// marker -> (frames seen, conns they arrived on)
     attempts: BTreeMap<u64, Vec<ConnId>>,
+    /// Faults armed for the NEXT connection a node accepts (the replacement of a killed
+    /// one): (node, kind, offset into the response stream, i.e. inside the handshake).
+    handshake_faults: Vec<(usize, CutKind, usize)>,
 }
 
 impl Script for C10Script {
+    fn on_connect(&mut self, w: &mut World, conn: ConnId) {
+        let node = w.conns[conn].node;
+        if let Some(i) = self.handshake_faults.iter().position(|(n, _, _)| *n == node) {
+            let (_, kind, offset) = self.handshake_faults.remove(i);
+            w.probe("handshake_fault");
+            w.log(&format!("handshake_fault conn={conn} kind={kind:?} offset={offset}"));
+            if offset == 0 && kind == CutKind::Stall {
+                w.stall_conn(conn);
+            } else {
+                w.conns[conn].cut = Some(Cut { at: offset, kind, before_frame: None, inject: vec![] });
+            }
+        }
+    }
     fn on_user_request(&mut self, _w: &mut World, rq: &ReqInfo, req: &Request) -> Reply {
         if matches!(req, Request::Prepare { .. }) {
             return Reply::Default;
@@ -415,6 +431,21 @@ async fn main(plan: Plan) -> Outcome {
                         ),
                     };
                     needs |= inject(&mut w, victim, kind, offset, &mut doomed);
+                    // The connection that will replace a killed one may meet a fault inside
+                    // its handshake (SUPPORTED / READY cut short, reset, or never arriving).
+                    if plan.enumerated.is_none() && matches!(kind, Kind::Fin | Kind::Rst) && tape::chance("c10:handshake_fault", 1, 3) {
+                        let node = w.conns[victim].node;
+                        let hk = if plan.ka_off {
+                            [CutKind::Fin, CutKind::Rst][tape::choose("c10:handshake_kind_loud", 2) as usize]
+                        } else {
+                            [CutKind::Fin, CutKind::Rst, CutKind::Stall][tape::choose("c10:handshake_kind", 3) as usize]
+                        };
+                        let off = tape::choose("c10:handshake_offset", 160) as usize;
+                        needs |= hk == CutKind::Stall;
+                        let mut s = w.script.take().unwrap();
+                        s.as_any().downcast_mut::<C10Script>().unwrap().handshake_faults.push((node, hk, off));
+                        w.script = Some(s);
+                    }
                     injected.push(format!("{kind:?}@+{offset} conn{victim}"));
                     fired_any = true;
                 }
@@ -514,6 +545,11 @@ async fn main(plan: Plan) -> Outcome {
         let mut w = world::world();
         for c in w.conns.iter_mut() {
             c.cut = None;
+        }
+        {
+            let mut s = w.script.take().unwrap();
+            s.as_any().downcast_mut::<C10Script>().unwrap().handshake_faults.clear();
+            w.script = Some(s);
         }
         // Partitions heal - after an outage that may have lasted long (the pools' reconnect
         // back-off has then been through many rounds). A connection attempt begun just
